@@ -27,6 +27,15 @@ def Cmp : CmpOp → Int → Int → Prop
 
 instance : Decidable (Cmp o a b) := by cases o <;> simp only [Cmp] <;> infer_instance
 
+/-- Reference table: how the operators are written in RING text. -/
+def opOfText : String → Option CmpOp
+  | ">" => some .gt
+  | "<" => some .lt
+  | ">=" => some .ge
+  | "<=" => some .le
+  | "=" => some .eq
+  | _ => none
+
 /-- `x` compares to the constraint's number as its operator says -/
 def CNHolds (c : CN) (x : Int) : Prop := Cmp c.op x c.n
 
@@ -107,6 +116,20 @@ def BondHolds : BondSpec → Bond → Prop
   | .part, e => e.kind = .dative ∨ e.kind = .other ∨ e.kind = .zero
 
 instance : Decidable (BondHolds s e) := by cases s <;> simp only [BondHolds] <;> infer_instance
+
+/-- Reference table: how the bond words are written in RING text. -/
+def bondOfText : String → Option BondSpec
+  | "single" => some .single
+  | "double" => some .double
+  | "triple" => some .triple
+  | "quadruple" => some .quadruple
+  | "aromatic" => some .aromatic
+  | "any" => some .any
+  | "ring" => some .ring
+  | "nonring" => some .nonring
+  | "strong" => some .strong
+  | "partial" => some .part
+  | _ => none
 
 /-- the atom at `y` is of the atom type `t` (prefix, element class, suffix) -/
 def TypeHolds (m : Mol) (t : AtomType) (y : Nat) : Prop :=
